@@ -155,6 +155,12 @@ def c04_scenarios(tier):
             sn = sched.Scenario("%s/build/eager:%s" % (sh, t), ts, all_x(ts, ["build"]), ["-c", "build"], ["build"],
                                 eager=[("build", t)])
             out.append(("c04", sn.describe(), {"max_dev": 0 if tier == "quick" else 1, "sequences": None}))
+    # executables that close both output streams right after starting and keep running (exec >log 2>&1)
+    for sh in shapes:
+        ts = shape_targets(sh)
+        sn = sched.Scenario("%s/build+test/all/closed-streams" % sh, ts, all_x(ts, ["build", "test"]), ["-c", "build", "test"], ["build", "test"])
+        sn.close_streams = True
+        out.append(("c04", sn.describe(), {"max_dev": 0 if tier == "quick" else 1, "sequences": None}))
     # the surroundings of a run: records of an earlier (failed / successful) run on disk, a listener attached
     ctxs = [["prior-failed"], ["listener"]] if tier == "quick" else [["prior-failed"], ["prior-ok"], ["listener"], ["prior-failed", "listener"]]
     for sh in shapes:
@@ -593,6 +599,63 @@ def c06b_task(desc):
         s.cleanup()
 
 
+def c06d_task(desc):
+    """No failure anywhere, but one member of a group exits while a process it started still holds its
+    output streams open (a daemon, `sleep 3 &`), and a sibling is still running at that time. Nothing
+    failed, so the run reports failed=false, exits 0, every entry is `success` and the dependent group runs."""
+    n, linger_ms, sibling_ms = desc["n"], desc["linger_ms"], desc["sibling_ms"]
+    ts = [{"path": "g%d" % i} for i in range(n)] + [{"path": "post", "uses": ["g%d" % i for i in range(n)]}]
+    s = sc.Scratch("c06d")
+    try:
+        r = sc.Repo(s, "r", ts, commands={t["path"]: {"build": "x"} for t in ts}, init_git=False)
+        c = sched.ctlmod.Controller(s)
+        try:
+            p = c.spawn("run", [common.MONORAIL, "run", "-c", "build"], r.dir, s.env(c.env()))
+            c.wait(lambda: len(c.waiting()) >= n or p.done(), 15)
+            grp = sorted(c.waiting(), key=lambda ch: ch.cwd)
+            if len(grp) < n:
+                return {"engine_error": "group did not arrive (exit %s %s)" % (p.code, p.err[:200])}
+            t0 = time.time()
+            c.release(grp[0], 0, ["out " + b"starting a helper\n".hex(), "bg %d" % linger_ms])
+            c.wait(lambda: grp[0].state == "gone", 5)
+            c.wait(lambda: p.done(), max(0.0, sibling_ms / 1000.0 - (time.time() - t0)))
+            for ch in grp[1:]:
+                c.release(ch, 0, ["out " + b"sibling done\n".hex()])
+            t_end = time.time() + 20
+            started_post = False
+            while not p.done() and time.time() < t_end:
+                c.pump(0.01)
+                for ch in list(c.waiting()):
+                    started_post = True
+                    c.release(ch, 0)
+            viol = []
+            if not p.done():
+                c.kill(p, group=True)
+                c.wait(lambda: p.done(), 5)
+                viol.append(("run-hung", "the run did not finish"))
+            doc = sc.Result(p.code, p.out, p.err).json()
+            if doc is None:
+                viol.append(("no-result-document", "exit %s %s" % (p.code, p.err[:200])))
+            else:
+                st = {t: v for cr in doc["results"] for g in cr["target_groups"] for t, v in g.items()}
+                bad = {t: v for t, v in st.items() if v.get("status") != "success" or v.get("code") != 0}
+                if doc.get("failed") or p.code != 0:
+                    viol.append(("spurious-failure", "every executable exited 0 (one left a helper holding its output open for %d ms, its sibling ran %d ms): failed=%s, exit status %s" % (linger_ms, sibling_ms, doc.get("failed"), p.code)))
+                if bad:
+                    viol.append(("spurious-status", "every executable exited 0 but the document reports %s" % bad))
+                if not started_post and not viol:
+                    viol.append(("later-group-not-started", "the dependent target was never started"))
+            return {"evaluations": 1, "nontrivial": 1, "states": 1, "transitions": 1, "unrealised": 0,
+                    "violations": [{"sig": sig, "detail": d, "rank": 600 + n, "case": {"c06d": desc}} for sig, d in viol],
+                    "sample": {"lingering_helper_ms": linger_ms, "sibling_ms": sibling_ms}}
+        finally:
+            c.close()
+    except common.EngineError as e:
+        return {"engine_error": str(e)}
+    finally:
+        s.cleanup()
+
+
 def c06c_task(desc):
     """C06 under delays of the compressor threads (guarded point compressor.loop): the scenario of
     p_c08.order_task judged for the failed flag, exit status, statuses and skipping."""
@@ -948,6 +1011,8 @@ def _worker(task):
             return c06b_task(desc)
         if kind == "c06c":
             return c06c_task(desc)
+        if kind == "c06d":
+            return c06d_task(desc)
     except common.EngineError as e:
         return {"engine_error": "%s: %s" % (kind, e)}
     except Exception:
@@ -961,7 +1026,7 @@ def run_tasks(tasks, workers=None):
 RULES = {
     "C04": "(thorough adds every labelled DAG on 2-4 nodes, single command, every release order) scenarios: 12 dependency shapes x selection modes (all targets / changed subset after a checkpoint / -t with --deps) x command lists (build; build test; sequence(build,test) then lint); every child blocks until released; stateless DFS over every release order (single-command scenarios: all orders; multi-command: all schedules with <= max_dev non-default choices) plus the eager deviation for every single child; monitor: at each arrival every dependency in the run and every executable of every earlier command has exited; evaluations = executions (complete runs); non-trivial = scenarios with more than one schedule",
     "C16": "(plus groups whose members all resolve the command to one shared executable, through definitions or a shared commands.path) (plus group sizes 2..13 with a `log tail` listener attached, three filter variants) (plus chains of wide groups, e.g. 30/30/10 and 40/40 under 1-2 commands, so that many tasks precede the group under test) group sizes x position of the group in the plan (only, first, middle, last) x 1-2 commands; no member is released before every member of the group has arrived (each member waits for all the others to start); oracle: every member arrives, then the run exits 0 with all success entries; non-trivial = scenarios where the full group rendezvoused for every command",
-    "C06": "part B (internal orderings): plans with a group of n in {1,2,3} (thorough 4) followed by a dependent target, all commands succeed, points group.pre_shutdown:<i> and compressor.gone:<x> active; the free run, every single constraint `compressor.gone:x before group.pre_shutdown:i` per group and pairs of constraints (hit b is held until hit a was seen); oracle exit 0, failed=false, all success, stored logs complete; plus the compressor-delay scenarios of C08 (guarded point compressor.loop: free / held until the group is joined / until the first shutdown request / one request behind) x no failure and each member failing last, judged for failed flag, exit status, statuses and skipping of the dependent group. part A: plans = dependency shapes with two commands; fault assignments: every single fault (exit codes, death by signal, missing x bit, undefined with/without --fail-on-undefined) at every (command,target) position, pairs of faults within a command, and no fault; every exit code 1..255 at one position of the fork shape (default schedule); a subset again with an earlier failed / successful run's records on disk and with a listener attached; for each every release order of the groups (<=3 members); oracle: failed flag, exit status, skipped/not-started later groups and commands, status truthfulness; evaluations = executions",
+    "C06": "part B (internal orderings): plans with a group of n in {1,2,3} (thorough 4) followed by a dependent target, all commands succeed, points group.pre_shutdown:<i> and compressor.gone:<x> active; the free run, every single constraint `compressor.gone:x before group.pre_shutdown:i` per group and pairs of constraints (hit b is held until hit a was seen); oracle exit 0, failed=false, all success, stored logs complete; plus the compressor-delay scenarios of C08 (guarded point compressor.loop: free / held until the group is joined / until the first shutdown request / one request behind) x no failure and each member failing last, judged for failed flag, exit status, statuses and skipping of the dependent group; plus runs without any failure in which one member leaves a helper process behind that holds its output streams open (0.6 - 2.5 s) while a sibling is still running. part A: plans = dependency shapes with two commands; fault assignments: every single fault (exit codes, death by signal, missing x bit, undefined with/without --fail-on-undefined) at every (command,target) position, pairs of faults within a command, and no fault; every exit code 1..255 at one position of the fork shape (default schedule); a subset again with an earlier failed / successful run's records on disk and with a listener attached; for each every release order of the groups (<=3 members); oracle: failed flag, exit status, skipped/not-started later groups and commands, status truthfulness; evaluations = executions",
     "C05": "(plus variants in which some targets define the command through commands.definitions with explicit paths and the declaration order is reversed) dependency shapes x command-definition patterns x command lists x selection modes (no targets without checkpoint; checkpoint + every changed subset; -t S; -t S --deps; the -t forms also with a checkpoint present) in trace mode; oracle: result document pairs == commands x selected targets exactly once, groups equal analyze --target-groups taken immediately before (or singletons / a valid layering of the closure), executable starts at most once, exactly once iff defined and nothing failed earlier, never when undefined; evaluations = runs",
 }
 
@@ -974,7 +1039,8 @@ def run(prop, tier):
         part = os.environ.get("VERIF_C06_PART", "AB")
         import p_c08
         tasks = (c06b_scenarios(tier) if "B" in part else []) + (tasks if "A" in part else []) + \
-            ([("c06c", d, {}) for d in p_c08.order_scenarios(tier)] if "B" in part else [])
+            ([("c06c", d, {}) for d in p_c08.order_scenarios(tier)] if "B" in part else []) + \
+            ([("c06d", {"n": n_, "linger_ms": lm, "sibling_ms": sm}, {}) for n_ in (2, 3) for (lm, sm) in ((1500, 700), (600, 1200), (2500, 300))] if "B" in part else [])
     results = run_tasks(tasks)
     errs = [r["engine_error"] for r in results if r and "engine_error" in r]
     if errs:
@@ -1038,6 +1104,8 @@ def replay(prop, path):
         r = c06b_task(case["c06b"])
     elif "c06c" in case:
         r = c06c_task(case["c06c"])
+    elif "c06d" in case:
+        r = c06d_task(case["c06d"])
     elif "c05" in case:
         r = c05_task(case["c05"])
     else:
